@@ -580,7 +580,39 @@ def r7_no_param_cache(repo: Repo, rep):
             rep.check(R, not bad, fi.site(), fi.fq, "values computed from `params` are not stored on self (unless the domain has no free variables)", str(bad[:2]), str(bad[:2]))
 
 
+def r8_dependent_product_average(repo: Repo, rep):
+    R = rep.rule("R-C10-8", "the approximated measure of a dependent product averages, for EACH parameter row, over that row's own sample values: the evaluations come parameter-major "
+                 "(_repeat_params interleaves: row i occupies entries i*N .. (i+1)*N-1), so they are reshaped to (rows, N) and reduced over axis 1", floor=2,
+                 why="reshape(N, -1) + sum(dim=0) reads the parameter-major vector as sample-major: with two rows every 'average' mixes both rows ([[3], [3]] instead of [[1], [5]])")
+    ci = repo.cls("problem.domains.domainoperations.product.ProductDomain")
+    fi = ci.methods.get("_get_volume")
+    if fi is None:
+        raise AnalysisError("ProductDomain._get_volume vanished")
+    rep.saw(fi)
+    n = 0
+    for c in ast.walk(fi.node):
+        if not (isinstance(c, ast.Call) and isinstance(c.func, ast.Attribute) and c.func.attr in ("reshape", "view") and len(c.args) == 2):
+            continue
+        a0, a1 = dump(c.args[0]), dump(c.args[1])
+        if "N_APPROX_VOLUME" not in (a0, a1):
+            continue
+        n += 1
+        # the reduction applied to this reshape
+        red = None
+        for s_ in ast.walk(fi.node):
+            if isinstance(s_, ast.Call) and (attr_chain(s_.func) in ("torch.sum", "torch.mean") or (isinstance(s_.func, ast.Attribute) and s_.func.attr in ("sum", "mean"))):
+                arg0 = s_.args[0] if attr_chain(s_.func) in ("torch.sum", "torch.mean") and s_.args else (s_.func.value if isinstance(s_.func, ast.Attribute) else None)
+                if arg0 is not None and (arg0 is c or (isinstance(arg0, ast.Name) and any(isinstance(a, ast.Assign) and a.value is c and dump(a.targets[0]) == arg0.id for a in ast.walk(fi.node)))):
+                    d = kwarg(s_, "dim", 1 if attr_chain(s_.func) in ("torch.sum", "torch.mean") else 0)
+                    red = dump(d) if d is not None else None
+        good = (a0 in ("-1",) and a1 == "N_APPROX_VOLUME" and red in ("1", "-1")) or (a1 == "N_APPROX_VOLUME" and a0 not in ("N_APPROX_VOLUME",) and red in ("1", "-1"))
+        rep.check(R, good, fi.site(c), fi.fq, "reshape(-1, N_APPROX_VOLUME) reduced over axis 1 (one average per parameter row)", f"reshape({a0}, {a1}) reduced over dim={red}", f"{dump(c.func.value)[:50]}.reshape({a0}, {a1}) dim={red}")
+    if n == 0:
+        rep.undecided(R, fi.site(), fi.fq, "the per-row average of the sampled measures", "no reshape with N_APPROX_VOLUME found")
+
+
 def run(repo: Repo, rep):
+    r8_dependent_product_average(repo, rep)
     from .generic import g_arg_constructor_parameters
     g_arg_constructor_parameters(repo, rep, lambda m: ".domains." in m, floor=25,
                                  why="a domain that ignores a shape argument or a flag (disjoint, contained) reports another measure")
